@@ -209,4 +209,757 @@ theorem skipAtmosphere_inv (b : Bool) (cs : List Char) (p : Pos) :
     refine ⟨c :: a, by simp; exact h1, by simpa using h2, h3, by simp [isTrail, hn, h4], ?_⟩
     intro h; simp [isAtmos, hn, h5 h]
 
+/-! ## what the scanners consume -/
+
+/-- a scanner started on `cs` at `p` consumed `used`, leaving `rest` at `p'` -/
+structure Used (cs : List Char) (p : Pos) (rest : List Char) (p' : Pos) (used : List Char) :
+    Prop where
+  split : cs = used ++ rest
+  pos : p' = advs used p
+
+theorem Used.nil (cs : List Char) (p : Pos) : Used cs p cs p [] := ⟨rfl, rfl⟩
+
+theorem Used.cons {cs p rest p' used} (c : Char) (h : Used cs (adv c p) rest p' used) :
+    Used (c :: cs) p rest p' (c :: used) := ⟨by simp [h.split], by simp [h.pos]⟩
+
+theorem Used.append {cs p mid pm rest p' u1 u2} (h1 : Used cs p mid pm u1)
+    (h2 : Used mid pm rest p' u2) : Used cs p rest p' (u1 ++ u2) :=
+  ⟨by simp [h1.split, h2.split], by simp [h2.pos, h1.pos, advs_append]⟩
+
+theorem Used.length_le {cs p rest p' used} (h : Used cs p rest p' used) :
+    rest.length + used.length = cs.length := by
+  simp [h.split]; omega
+
+/-- all characters are outside `specials` -/
+def NoSpecial (l : List Char) : Prop := ∀ c ∈ l, c ∉ specials
+
+theorem NoSpecial.nil : NoSpecial [] := by simp [NoSpecial]
+theorem NoSpecial.cons {c l} (h : c ∉ specials) (hl : NoSpecial l) : NoSpecial (c :: l) := by
+  intro x hx; rcases List.mem_cons.mp hx with rfl | hx
+  · exact h
+  · exact hl x hx
+theorem NoSpecial.append {a b} (ha : NoSpecial a) (hb : NoSpecial b) : NoSpecial (a ++ b) := by
+  intro x hx; rcases List.mem_append.mp hx with hx | hx
+  · exact ha x hx
+  · exact hb x hx
+
+theorem integerToken_inv {lit cs p t rest p'} (h : integerToken lit cs p = .ok (t, rest, p')) :
+    rest = cs ∧ p' = p ∧ Syn.isAtomTok t = true := by
+  unfold integerToken at h
+  split at h
+  · cases h; simp [Syn.isAtomTok]
+  · cases h
+
+theorem realToken_inv {lit cs p t rest p'} (h : realToken lit cs p = .ok (t, rest, p')) :
+    rest = cs ∧ p' = p ∧ Syn.isAtomTok t = true := by
+  unfold realToken at h
+  split at h
+  · cases h; simp [Syn.isAtomTok]
+  · cases h
+
+theorem numberSuffix_inv (lit cs1 : List Char) (p : Pos) :
+    ∃ used lit' cs', numberSuffix lit ('e' :: cs1) p = (lit', cs', advs used p) ∧
+      Used ('e' :: cs1) p cs' (advs used p) used ∧ NoSpecial used := by
+  have he : 'e' ∉ specials := by decide
+  cases cs1 with
+  | nil =>
+    refine ⟨['e'], lit ++ ['e'], [], ?_, ⟨rfl, rfl⟩, NoSpecial.cons he NoSpecial.nil⟩
+    simp [numberSuffix, takeRun]
+  | cons s cs2 =>
+    by_cases hs : (s = '+' || s = '-') = true
+    · obtain ⟨ds, r, h1, h2, h3, h4⟩ := takeRun_ex isDigit cs2 (adv s (adv 'e' p))
+      refine ⟨'e' :: s :: ds, lit ++ ['e'] ++ [s] ++ ds, r, ?_, ⟨by simp [h1], rfl⟩, ?_⟩
+      · simp only [numberSuffix, hs, if_true, h4]; rfl
+      · refine NoSpecial.cons he (NoSpecial.cons ?_ (fun c hc => isDigit_ns (h2 c hc)))
+        simp only [Bool.or_eq_true, decide_eq_true_eq] at hs
+        rcases hs with rfl | rfl <;> decide
+    · obtain ⟨ds, r, h1, h2, h3, h4⟩ := takeRun_ex isDigit (s :: cs2) (adv 'e' p)
+      refine ⟨'e' :: ds, lit ++ ['e'] ++ ds, r, ?_, ⟨by simp [h1], rfl⟩, ?_⟩
+      · simp [numberSuffix, hs, h4]
+      · exact NoSpecial.cons he (fun c hc => isDigit_ns (h2 c hc))
+
+theorem dot_ns : '.' ∉ specials := by decide
+
+theorem real_inv {lit cs1 p lit' cs' p'} (h : real lit ('.' :: cs1) p = .ok (lit', cs', p')) :
+    ∃ used, Used ('.' :: cs1) p cs' p' used ∧ NoSpecial used ∧ startsDelim cs' = true := by
+  unfold real at h
+  cases cs1 with
+  | nil =>
+    simp only [Except.ok.injEq, Prod.mk.injEq] at h
+    obtain ⟨-, rfl, rfl⟩ := h
+    exact ⟨['.'], ⟨rfl, rfl⟩, NoSpecial.cons dot_ns NoSpecial.nil, rfl⟩
+  | cons nc r =>
+    simp only at h
+    split at h
+    · rename_i hnc
+      subst hnc
+      obtain ⟨used, l2, c2, h1, h2, h3⟩ := numberSuffix_inv (lit ++ ['.']) r (adv '.' p)
+      rw [h1] at h
+      simp only [bind_ok, endOfToken_ok] at h
+      obtain ⟨_, hd, h⟩ := h
+      simp only [pure, Except.pure, Except.ok.injEq, Prod.mk.injEq] at h
+      obtain ⟨-, rfl, rfl⟩ := h
+      exact ⟨'.' :: used, h2.cons '.', NoSpecial.cons dot_ns h3, hd⟩
+    · split at h
+      · obtain ⟨ds, r2, h1, h2, h3, h4⟩ := takeRun_ex isDigit (nc :: r) (adv '.' p)
+        rw [h4] at h
+        simp only at h
+        have hu : Used ('.' :: nc :: r) p r2 (advs ds (adv '.' p)) ('.' :: ds) :=
+          ⟨by simp [h1], rfl⟩
+        have hn : NoSpecial ('.' :: ds) :=
+          NoSpecial.cons dot_ns (fun c hc => isDigit_ns (h2 c hc))
+        cases r2 with
+        | nil =>
+          simp only [Except.ok.injEq, Prod.mk.injEq] at h
+          obtain ⟨-, rfl, rfl⟩ := h
+          exact ⟨_, hu, hn, rfl⟩
+        | cons nnc r3 =>
+          simp only at h
+          split at h
+          · rename_i hnnc
+            subst hnnc
+            obtain ⟨used, l2, c2, g1, g2, g3⟩ :=
+              numberSuffix_inv (lit ++ ['.'] ++ ds) r3 (advs ds (adv '.' p))
+            rw [g1] at h
+            simp only [bind_ok, endOfToken_ok] at h
+            obtain ⟨_, hd, h⟩ := h
+            simp only [pure, Except.pure, Except.ok.injEq, Prod.mk.injEq] at h
+            obtain ⟨-, rfl, rfl⟩ := h
+            exact ⟨_, hu.append g2, hn.append g3, hd⟩
+          · simp only [bind_ok, testDelimiter_ok] at h
+            obtain ⟨_, hd, h⟩ := h
+            simp only [pure, Except.pure, Except.ok.injEq, Prod.mk.injEq] at h
+            obtain ⟨-, rfl, rfl⟩ := h
+            exact ⟨_, hu, hn, hd⟩
+      · simp only [bind_ok, testDelimiter_ok] at h
+        obtain ⟨_, hd, h⟩ := h
+        simp only [pure, Except.pure, Except.ok.injEq, Prod.mk.injEq] at h
+        obtain ⟨-, rfl, rfl⟩ := h
+        exact ⟨['.'], ⟨rfl, rfl⟩, NoSpecial.cons dot_ns NoSpecial.nil, hd⟩
+
+theorem number_inv {first cs p t rest p'} (h : number first cs p = .ok (t, rest, p')) :
+    ∃ used, Used cs p rest p' used ∧ NoSpecial used ∧ startsDelim rest = true ∧
+      Syn.isAtomTok t = true := by
+  unfold number at h
+  obtain ⟨ds, cs1, h1, h2, h3, h4⟩ := takeRun_ex isDigit cs p
+  rw [h4] at h
+  simp only at h
+  have hu : Used cs p cs1 (advs ds p) ds := ⟨h1, rfl⟩
+  have hn : NoSpecial ds := fun c hc => isDigit_ns (h2 c hc)
+  cases cs1 with
+  | nil =>
+    simp only at h
+    obtain ⟨rfl, rfl, ht⟩ := integerToken_inv h
+    exact ⟨_, hu, hn, rfl, ht⟩
+  | cons nc r =>
+    simp only at h
+    split at h
+    · rename_i hnc
+      subst hnc
+      obtain ⟨used, l2, c2, g1, g2, g3⟩ := numberSuffix_inv (first :: ds) r (advs ds p)
+      rw [g1] at h
+      simp only [bind_ok, endOfToken_ok] at h
+      obtain ⟨_, hd, h⟩ := h
+      obtain ⟨rfl, rfl, ht⟩ := realToken_inv h
+      exact ⟨_, hu.append g2, hn.append g3, hd, ht⟩
+    · split at h
+      · rename_i hnc
+        subst hnc
+        simp only [bind_ok] at h
+        obtain ⟨⟨l2, c2, p2⟩, hr, h⟩ := h
+        obtain ⟨used, g2, g3, hd⟩ := real_inv hr
+        obtain ⟨rfl, rfl, ht⟩ := realToken_inv h
+        exact ⟨_, hu.append g2, hn.append g3, hd, ht⟩
+      · split at h
+        · rename_i hnc
+          subst hnc
+          obtain ⟨den, r3, k1, k2, k3, k4⟩ := takeRun_ex isDigit r (adv '/' (advs ds p))
+          rw [k4] at h
+          simp only [bind_ok, endOfToken_ok] at h
+          obtain ⟨_, hd, h⟩ := h
+          have hu2 : Used ('/' :: r) (advs ds p) r3 (advs den (adv '/' (advs ds p))) ('/' :: den) :=
+            ⟨by simp [k1], rfl⟩
+          have hn2 : NoSpecial ('/' :: den) :=
+            NoSpecial.cons (by decide) (fun c hc => isDigit_ns (k2 c hc))
+          split at h
+          · cases h
+          · simp only [pure, Except.pure, Except.ok.injEq, Prod.mk.injEq] at h
+            obtain ⟨rfl, rfl, rfl⟩ := h
+            exact ⟨_, hu.append hu2, hn.append hn2, hd, rfl⟩
+          · cases h
+        · simp only [bind_ok, testDelimiter_ok] at h
+          obtain ⟨_, hd, h⟩ := h
+          obtain ⟨rfl, rfl, ht⟩ := integerToken_inv h
+          exact ⟨_, hu, hn, hd, ht⟩
+
+theorem normalIdentifier_inv {first cs p t rest p'}
+    (h : normalIdentifier first cs p = .ok (t, rest, p')) :
+    ∃ used, Used cs p rest p' used ∧ NoSpecial used ∧ startsDelim rest = true ∧
+      (∀ c ∈ used, isSubsequent c = true) ∧ t = .ident (String.ofList (first :: used)) := by
+  unfold normalIdentifier at h
+  obtain ⟨run, cs1, h1, h2, h3, h4⟩ := takeRun_ex isSubsequent cs p
+  rw [h4] at h
+  simp only at h
+  have hu : Used cs p cs1 (advs run p) run := ⟨h1, rfl⟩
+  have hn : NoSpecial run := fun c hc => isSubsequent_ns (h2 c hc)
+  cases cs1 with
+  | nil =>
+    simp only [Except.ok.injEq, Prod.mk.injEq] at h
+    obtain ⟨rfl, rfl, rfl⟩ := h
+    exact ⟨_, hu, hn, rfl, h2, rfl⟩
+  | cons nc r =>
+    simp only [bind_ok, testDelimiter_ok] at h
+    obtain ⟨_, hd, h⟩ := h
+    simp only [pure, Except.pure, Except.ok.injEq, Prod.mk.injEq] at h
+    obtain ⟨rfl, rfl, rfl⟩ := h
+    exact ⟨_, hu, hn, hd, h2, rfl⟩
+
+theorem dotSubsequent_inv {acc cs p s rest p'}
+    (h : dotSubsequent acc cs p = .ok (s, rest, p')) :
+    ∃ used, Used cs p rest p' used ∧ NoSpecial used ∧ startsDelim rest = true ∧
+      (∀ c ∈ used, isSubsequent c = true) ∧ s = acc ++ used := by
+  unfold dotSubsequent at h
+  cases cs with
+  | nil =>
+    simp only [Except.ok.injEq, Prod.mk.injEq] at h
+    obtain ⟨rfl, rfl, rfl⟩ := h
+    exact ⟨[], Used.nil _ _, NoSpecial.nil, rfl, by simp, by simp⟩
+  | cons c r =>
+    simp only at h
+    split at h
+    · obtain ⟨run, cs1, h1, h2, h3, h4⟩ := takeRun_ex isSubsequent (c :: r) p
+      rw [h4] at h
+      simp only at h
+      have hu : Used (c :: r) p cs1 (advs run p) run := ⟨h1, rfl⟩
+      have hn : NoSpecial run := fun c hc => isSubsequent_ns (h2 c hc)
+      cases cs1 with
+      | nil =>
+        simp only [Except.ok.injEq, Prod.mk.injEq] at h
+        obtain ⟨rfl, rfl, rfl⟩ := h
+        exact ⟨_, hu, hn, rfl, h2, rfl⟩
+      | cons nc r =>
+        simp only [bind_ok, testDelimiter_ok] at h
+        obtain ⟨_, hd, h⟩ := h
+        simp only [pure, Except.pure, Except.ok.injEq, Prod.mk.injEq] at h
+        obtain ⟨rfl, rfl, rfl⟩ := h
+        exact ⟨_, hu, hn, hd, h2, rfl⟩
+    · simp only [bind_ok, testDelimiter_ok] at h
+      obtain ⟨_, hd, h⟩ := h
+      simp only [pure, Except.pure, Except.ok.injEq, Prod.mk.injEq] at h
+      obtain ⟨rfl, rfl, rfl⟩ := h
+      exact ⟨[], Used.nil _ _, NoSpecial.nil, hd, by simp, by simp⟩
+
+theorem peculiarIdentifier_inv {first cs p t rest p'}
+    (h : peculiarIdentifier first cs p = .ok (t, rest, p')) :
+    ∃ used, Used cs p rest p' used ∧ NoSpecial used ∧ startsDelim rest = true ∧
+      (∀ c ∈ used, isSubsequent c = true) ∧ t = .ident (String.ofList (first :: used)) := by
+  unfold peculiarIdentifier at h
+  split at h
+  · cases cs with
+    | nil =>
+      simp only [Except.ok.injEq, Prod.mk.injEq] at h
+      obtain ⟨rfl, rfl, rfl⟩ := h
+      exact ⟨[], Used.nil _ _, NoSpecial.nil, rfl, by simp, rfl⟩
+    | cons c r =>
+      simp only at h
+      split at h
+      · rename_i hc
+        subst hc
+        simp only [bind_ok] at h
+        obtain ⟨⟨s, c2, p2⟩, hd, h⟩ := h
+        obtain ⟨used, g1, g2, g3, g4, rfl⟩ := dotSubsequent_inv hd
+        simp only [pure, Except.pure, Except.ok.injEq, Prod.mk.injEq] at h
+        obtain ⟨rfl, rfl, rfl⟩ := h
+        refine ⟨'.' :: used, g1.cons '.', NoSpecial.cons dot_ns g2, g3, ?_, rfl⟩
+        intro x hx
+        rcases List.mem_cons.mp hx with rfl | hx
+        · decide
+        · exact g4 x hx
+      · simp only [bind_ok] at h
+        obtain ⟨⟨s, c2, p2⟩, hd, h⟩ := h
+        obtain ⟨used, g1, g2, g3, g4, rfl⟩ := dotSubsequent_inv hd
+        simp only [pure, Except.pure, Except.ok.injEq, Prod.mk.injEq] at h
+        obtain ⟨rfl, rfl, rfl⟩ := h
+        exact ⟨used, g1, g2, g3, g4, rfl⟩
+  · simp only [bind_ok] at h
+    obtain ⟨⟨s, c2, p2⟩, hd, h⟩ := h
+    obtain ⟨used, g1, g2, g3, g4, rfl⟩ := dotSubsequent_inv hd
+    simp only [pure, Except.pure, Except.ok.injEq, Prod.mk.injEq] at h
+    obtain ⟨rfl, rfl, rfl⟩ := h
+    exact ⟨used, g1, g2, g3, g4, rfl⟩
+
+theorem quotedIdentifier_inv {cs p acc t rest p'}
+    (h : quotedIdentifier cs p acc = .ok (t, rest, p')) :
+    ∃ body, Used cs p rest p' (body ++ ['|']) ∧ '|' ∉ body ∧
+      t = .ident (String.ofList (acc.reverse ++ body)) := by
+  induction cs generalizing p acc with
+  | nil => simp [quotedIdentifier] at h
+  | cons c cs ih =>
+    unfold quotedIdentifier at h
+    split at h
+    · rename_i hc
+      subst hc
+      simp only [Except.ok.injEq, Prod.mk.injEq] at h
+      obtain ⟨rfl, rfl, rfl⟩ := h
+      exact ⟨[], ⟨rfl, rfl⟩, by simp, by simp⟩
+    · rename_i hc
+      obtain ⟨body, g1, g2, g3⟩ := ih h
+      refine ⟨c :: body, g1.cons c, ?_, by simp [g3]⟩
+      simp only [List.mem_cons, not_or]
+      exact ⟨fun e => hc e.symm, g2⟩
+
+theorem character_inv {first cs p t rest p'} (h : character first cs p = .ok (t, rest, p')) :
+    ∃ used, Used cs p rest p' used ∧ NoSpecial used ∧
+      (startsDelim rest = true ∨ startsSharp rest = true) ∧ sharpTok t = true := by
+  unfold character at h
+  obtain ⟨run, cs1, h1, h2, h3, h4⟩ := takeRun_ex isAsciiAlnum cs p
+  rw [h4] at h
+  simp only [bind_ok, endOfSharpToken_ok] at h
+  obtain ⟨_, hd, h⟩ := h
+  have hu : Used cs p cs1 (advs run p) run := ⟨h1, rfl⟩
+  have hn : NoSpecial run := fun c hc => isAsciiAlnum_ns (h2 c hc)
+  split at h
+  · simp only [pure, Except.pure, Except.ok.injEq, Prod.mk.injEq] at h
+    obtain ⟨rfl, rfl, rfl⟩ := h
+    exact ⟨_, hu, hn, hd, rfl⟩
+  · split at h
+    · simp only [pure, Except.pure, Except.ok.injEq, Prod.mk.injEq] at h
+      obtain ⟨rfl, rfl, rfl⟩ := h
+      exact ⟨_, hu, hn, hd, rfl⟩
+    · split at h
+      · split at h
+        · split at h
+          · cases h
+          · simp only [pure, Except.pure, Except.ok.injEq, Prod.mk.injEq] at h
+            obtain ⟨rfl, rfl, rfl⟩ := h
+            exact ⟨_, hu, hn, hd, rfl⟩
+        · cases h
+      · cases h
+
+/-- the characters of a string literal after the opening quote, up to and including the closing
+quote: a backslash always hides the next character -/
+inductive StrBody : List Char → Prop
+  | close : StrBody ['"']
+  | esc (c : Char) (r : List Char) : StrBody r → StrBody ('\\' :: c :: r)
+  | lit (c : Char) (r : List Char) : c ≠ '"' → c ≠ '\\' → StrBody r → StrBody (c :: r)
+
+theorem StrBody.lits {l r : List Char} (hl : ∀ c ∈ l, c ≠ '"' ∧ c ≠ '\\') (hr : StrBody r) :
+    StrBody (l ++ r) := by
+  induction l with
+  | nil => exact hr
+  | cons c l ih =>
+    exact StrBody.lit c _ (hl c (by simp)).1 (hl c (by simp)).2
+      (ih (fun x hx => hl x (by simp [hx])))
+
+theorem hexEscape_inv {cs p acc hex rest p'} (h : hexEscape cs p acc = .ok (hex, rest, p')) :
+    ∃ body, Used cs p rest p' (body ++ [';']) ∧ hex = acc.reverse ++ body := by
+  induction cs generalizing p acc with
+  | nil => simp [hexEscape] at h
+  | cons c cs ih =>
+    unfold hexEscape at h
+    split at h
+    · rename_i hc
+      subst hc
+      simp only [Except.ok.injEq, Prod.mk.injEq] at h
+      obtain ⟨rfl, rfl, rfl⟩ := h
+      exact ⟨[], ⟨rfl, rfl⟩, by simp⟩
+    · obtain ⟨body, g1, g3⟩ := ih h
+      exact ⟨c :: body, g1.cons c, by simp [g3]⟩
+
+theorem hexVal_some_aux (ds : List Char) (a : Option Nat) (n : Nat)
+    (h : ds.foldl (fun acc c => match acc, Proto.hexDigit? c with
+      | some a, some d => some (a * 16 + d)
+      | _, _ => none) a = some n) : ∀ c ∈ ds, (Proto.hexDigit? c).isSome = true := by
+  induction ds generalizing a with
+  | nil => simp
+  | cons d ds ih =>
+    simp only [List.foldl_cons] at h
+    intro c hc
+    rcases List.mem_cons.mp hc with rfl | hc
+    · cases hd : Proto.hexDigit? c with
+      | some _ => rfl
+      | none =>
+        rw [hd] at h
+        have : ∀ (l : List Char), l.foldl (fun acc c => match acc, Proto.hexDigit? c with
+            | some a, some d => some (a * 16 + d)
+            | _, _ => none) none = none := by
+          intro l; induction l with
+          | nil => rfl
+          | cons x l ih => simpa using ih
+        have h' : (match a, (none : Option Nat) with
+            | some a, some d => some (a * 16 + d)
+            | _, _ => none) = none := by cases a <;> rfl
+        rw [h', this] at h
+        cases h
+    · exact ih _ h c hc
+
+theorem hexScalar_chars {hex : List Char} {ch : Char} (h : hexScalar? hex = some ch) :
+    ∀ c ∈ hex, c ≠ '"' ∧ c ≠ '\\' := by
+  have key : ∀ c, (c = '+' ∨ (Proto.hexDigit? c).isSome = true) → c ≠ '"' ∧ c ≠ '\\' := by
+    intro c hc
+    constructor <;> (rintro rfl; revert hc; decide)
+  have body : ∀ ds : List Char, (if ds.isEmpty then none else
+      match Proto.hexVal ds with
+      | none => none
+      | some n =>
+        if n ≤ 4294967295 ∧ (n < 0xD800 ∨ (0xDFFF < n ∧ n ≤ 0x10FFFF)) then some (Char.ofNat n)
+        else none) = some ch → ∀ c ∈ ds, (Proto.hexDigit? c).isSome = true := by
+    intro ds hds
+    split at hds
+    · cases hds
+    · split at hds
+      · cases hds
+      · rename_i n hv
+        exact hexVal_some_aux _ _ _ hv
+  intro c hc
+  apply key
+  cases hex with
+  | nil => simp at hc
+  | cons x r =>
+    by_cases hx : x = '+'
+    · subst hx
+      have := body r h
+      rcases List.mem_cons.mp hc with rfl | hc
+      · exact Or.inl rfl
+      · exact Or.inr (this c hc)
+    · have e : hexScalar? (x :: r) = (if (x :: r).isEmpty then none else
+          match Proto.hexVal (x :: r) with
+          | none => none
+          | some n =>
+            if n ≤ 4294967295 ∧ (n < 0xD800 ∨ (0xDFFF < n ∧ n ≤ 0x10FFFF)) then
+              some (Char.ofNat n)
+            else none) := by
+        unfold hexScalar?
+        split
+        · rename_i heq; simp at heq; exact absurd heq.1 hx
+        · rfl
+      rw [e] at h
+      exact Or.inr (body _ h c hc)
+
+theorem string_inv {cs p acc t rest p'} (h : Lex.string cs p acc = .ok (t, rest, p')) :
+    ∃ used, Used cs p rest p' used ∧ StrBody used ∧ ∃ s, t = .prim (.str s) := by
+  revert h
+  fun_induction Lex.string cs p acc with
+  | case1 => intro h; cases h
+  | case2 cs p acc =>
+    intro h
+    simp only [Except.ok.injEq, Prod.mk.injEq] at h
+    obtain ⟨rfl, rfl, rfl⟩ := h
+    exact ⟨['"'], ⟨rfl, rfl⟩, StrBody.close, _, rfl⟩
+  | case3 => intro h; cases h
+  | case4 p acc tail p1 _ p2 ih =>
+    intro h
+    obtain ⟨used, g1, g2, g3⟩ := ih h
+    exact ⟨_, (g1.cons _).cons _, StrBody.esc _ _ g2, g3⟩
+  | case14 p acc tail hex cs2 p3 ch hsc p1 _ _ _ _ _ _ _ _ _ _ p2 hhex ih =>
+    intro h
+    obtain ⟨used, g1, g2, g3⟩ := ih h
+    obtain ⟨body, k1, k2⟩ := hexEscape_inv hhex
+    simp only [List.reverse_nil, List.nil_append] at k2
+    subst k2
+    refine ⟨_, ((k1.append g1).cons _).cons _, StrBody.esc _ _ (StrBody.lits ?_ g2), g3⟩
+    intro c hc
+    rcases List.mem_append.mp hc with hc | hc
+    · exact hexScalar_chars hsc c hc
+    · simp only [List.mem_singleton] at hc; subst hc; decide
+  | case17 c cs p acc p1 h1 h2 ih =>
+    intro h
+    obtain ⟨used, g1, g2, g3⟩ := ih h
+    exact ⟨_, g1.cons _, StrBody.lit _ _ h1 h2 g2, g3⟩
+  | _ =>
+    first
+    | (intro h; cases h; done)
+    | (rename_i ih; intro h; obtain ⟨used, g1, g2, g3⟩ := ih h
+       exact ⟨_, (g1.cons _).cons _, StrBody.esc _ _ g2, g3⟩)
+
+/-- the possible outcomes of `Lex.token`: the token together with the characters it consumed;
+`rest` is the text after the token, `startOK` says that the text started with a non-atmosphere
+character (always the case when `token` is called from `next`) -/
+inductive TokShape (startOK : Prop) (rest : List Char) : Token → List Char → Prop
+  | lparen : TokShape startOK rest .lparen ['(']
+  | rparen : TokShape startOK rest .rparen [')']
+  | vecIntro : TokShape startOK rest .vecIntro ['#', '(']
+  | byteVecIntro : TokShape startOK rest .byteVecIntro ['#', 'u', '8', '(']
+  | quote : TokShape startOK rest .quote ['\'']
+  | quasiquote : TokShape startOK rest .quasiquote ['`']
+  | unquote : TokShape startOK rest .unquote [',']
+  | unquoteSplicing : TokShape startOK rest .unquoteSplicing [',', '@']
+  | word (t : Token) (used : List Char) : used ≠ [] → (t = .period ∨ Syn.isAtomTok t = true) →
+      (startOK → NoSpecial used) → startsDelim rest = true → TokShape startOK rest t used
+  | bool (b : Bool) (x : Char) : x ∉ specials → (startsDelim rest = true ∨ startsSharp rest = true) →
+      TokShape startOK rest (.prim (.bool b)) ['#', x]
+  | char (t : Token) (first : Char) (run : List Char) : sharpTok t = true → NoSpecial run →
+      (startsDelim rest = true ∨ startsSharp rest = true) →
+      TokShape startOK rest t ('#' :: '\\' :: first :: run)
+  | str (s : String) (body : List Char) : StrBody body →
+      TokShape startOK rest (.prim (.str s)) ('"' :: body)
+  | bar (body : List Char) : '|' ∉ body →
+      TokShape startOK rest (.ident (String.ofList body)) ('|' :: (body ++ ['|']))
+
+theorem token_inv {cs p t rest p'} (h : token cs p = .ok (some (t, rest, p'))) :
+    ∃ used, Used cs p rest p' used ∧ TokShape (startsTok cs = true) rest t used := by
+  cases cs with
+  | nil => simp [token] at h
+  | cons c cs1 =>
+    rw [token.eq_def] at h
+    dsimp only at h
+    by_cases h1 : c = '('
+    · rw [if_pos h1] at h; subst h1
+      simp only [Except.ok.injEq, Option.some.injEq, Prod.mk.injEq] at h
+      obtain ⟨rfl, rfl, rfl⟩ := h
+      exact ⟨_, ⟨rfl, rfl⟩, .lparen⟩
+    rw [if_neg h1] at h
+    by_cases h2 : c = ')'
+    · rw [if_pos h2] at h; subst h2
+      simp only [Except.ok.injEq, Option.some.injEq, Prod.mk.injEq] at h
+      obtain ⟨rfl, rfl, rfl⟩ := h
+      exact ⟨_, ⟨rfl, rfl⟩, .rparen⟩
+    rw [if_neg h2] at h
+    by_cases h3 : c = '\''
+    · rw [if_pos h3] at h; subst h3
+      simp only [Except.ok.injEq, Option.some.injEq, Prod.mk.injEq] at h
+      obtain ⟨rfl, rfl, rfl⟩ := h
+      exact ⟨_, ⟨rfl, rfl⟩, .quote⟩
+    rw [if_neg h3] at h
+    by_cases h4 : c = '`'
+    · rw [if_pos h4] at h; subst h4
+      simp only [Except.ok.injEq, Option.some.injEq, Prod.mk.injEq] at h
+      obtain ⟨rfl, rfl, rfl⟩ := h
+      exact ⟨_, ⟨rfl, rfl⟩, .quasiquote⟩
+    rw [if_neg h4] at h
+    by_cases h5 : c = '#'
+    · rw [if_pos h5] at h
+      subst h5
+      cases cs1 with
+      | nil => cases h
+      | cons cn cs2 =>
+        simp only at h
+        split at h
+        · rename_i hc; subst hc
+          simp only [Except.ok.injEq, Option.some.injEq, Prod.mk.injEq] at h
+          obtain ⟨rfl, rfl, rfl⟩ := h
+          exact ⟨_, ⟨rfl, rfl⟩, .vecIntro⟩
+        split at h
+        · rename_i hc
+          simp only [bind_ok, endOfSharpToken_ok] at h
+          obtain ⟨_, hd, h⟩ := h
+          simp only [pure, Except.pure, Except.ok.injEq, Option.some.injEq, Prod.mk.injEq] at h
+          obtain ⟨rfl, rfl, rfl⟩ := h
+          refine ⟨_, ⟨rfl, rfl⟩, .bool _ cn ?_ hd⟩
+          simp only [Bool.or_eq_true, decide_eq_true_eq] at hc
+          rcases hc with rfl | rfl <;> decide
+        split at h
+        · rename_i hc; subst hc
+          cases cs2 with
+          | nil => cases h
+          | cons cnn cs3 =>
+            simp only [map_ok_some] at h
+            obtain ⟨used, g1, g2, g3, g4⟩ := character_inv h
+            exact ⟨_, ((g1.cons _).cons _).cons _, .char _ _ _ g4 g2 g3⟩
+        split at h
+        · rename_i hc; subst hc
+          cases cs2 with
+          | nil => cases h
+          | cons c8 cs3 =>
+            simp only at h
+            split at h
+            · rename_i hc; subst hc
+              cases cs3 with
+              | nil => cases h
+              | cons cp cs4 =>
+                simp only at h
+                split at h
+                · rename_i hc; subst hc
+                  simp only [Except.ok.injEq, Option.some.injEq, Prod.mk.injEq] at h
+                  obtain ⟨rfl, rfl, rfl⟩ := h
+                  exact ⟨_, ⟨rfl, rfl⟩, .byteVecIntro⟩
+                · cases h
+            · cases h
+        · cases h
+    rw [if_neg h5] at h
+    by_cases h6 : c = ','
+    · rw [if_pos h6] at h
+      subst h6
+      cases cs1 with
+      | nil => cases h
+      | cons nc cs2 =>
+        simp only at h
+        split at h
+        · rename_i hc; subst hc
+          simp only [Except.ok.injEq, Option.some.injEq, Prod.mk.injEq] at h
+          obtain ⟨rfl, rfl, rfl⟩ := h
+          exact ⟨_, ⟨rfl, rfl⟩, .unquoteSplicing⟩
+        · simp only [Except.ok.injEq, Option.some.injEq, Prod.mk.injEq] at h
+          obtain ⟨rfl, rfl, rfl⟩ := h
+          exact ⟨_, ⟨rfl, rfl⟩, .unquote⟩
+    rw [if_neg h6] at h
+    by_cases h7 : c = '.'
+    · rw [if_pos h7] at h
+      subst h7
+      cases cs1 with
+      | nil =>
+        simp only [Except.ok.injEq, Option.some.injEq, Prod.mk.injEq] at h
+        obtain ⟨rfl, rfl, rfl⟩ := h
+        exact ⟨_, ⟨rfl, rfl⟩, .word _ _ (by simp) (Or.inl rfl) (fun _ => NoSpecial.cons dot_ns .nil) rfl⟩
+      | cons nc cs2 =>
+        simp only at h
+        split at h
+        · rename_i hd
+          simp only [Except.ok.injEq, Option.some.injEq, Prod.mk.injEq] at h
+          obtain ⟨rfl, rfl, rfl⟩ := h
+          exact ⟨_, ⟨rfl, rfl⟩, .word _ _ (by simp) (Or.inl rfl) (fun _ => NoSpecial.cons dot_ns .nil) hd⟩
+        · simp only [map_ok_some] at h
+          obtain ⟨used, g1, g2, g3, g4, rfl⟩ := peculiarIdentifier_inv h
+          exact ⟨_, g1.cons _, .word _ _ (by simp) (Or.inr rfl) (fun _ => NoSpecial.cons dot_ns g2) g3⟩
+    rw [if_neg h7] at h
+    by_cases h8 : (c = '+' || c = '-') = true
+    · rw [if_pos h8] at h
+      have hc := h8
+      have hcs : c ∉ specials := by
+        simp only [Bool.or_eq_true, decide_eq_true_eq] at hc
+        rcases hc with rfl | rfl <;> decide
+      have hnum : ∀ {cs1}, number c cs1 (adv c p) = .ok (t, rest, p') →
+          ∃ used, Used (c :: cs1) p rest p' used ∧
+            TokShape (startsTok (c :: cs1) = true) rest t used := by
+        intro cs1 h
+        obtain ⟨used, g1, g2, g3, g4⟩ := number_inv h
+        exact ⟨_, g1.cons _, .word _ _ (by simp) (Or.inr g4) (fun _ => NoSpecial.cons hcs g2) g3⟩
+      have hpec : ∀ {cs1}, peculiarIdentifier c cs1 (adv c p) = .ok (t, rest, p') →
+          ∃ used, Used (c :: cs1) p rest p' used ∧
+            TokShape (startsTok (c :: cs1) = true) rest t used := by
+        intro cs1 h
+        obtain ⟨used, g1, g2, g3, g4, rfl⟩ := peculiarIdentifier_inv h
+        exact ⟨_, g1.cons _, .word _ _ (by simp) (Or.inr rfl) (fun _ => NoSpecial.cons hcs g2) g3⟩
+      cases cs1 with
+      | nil => simp only [map_ok_some] at h; exact hpec h
+      | cons nc cs2 =>
+        simp only at h
+        split at h
+        · simp only [map_ok_some] at h; exact hnum h
+        · simp only [map_ok_some] at h; exact hpec h
+    rw [if_neg h8] at h
+    by_cases h9 : c = '"'
+    · rw [if_pos h9] at h; subst h9
+      simp only [map_ok_some] at h
+      obtain ⟨used, g1, g2, s, rfl⟩ := string_inv h
+      exact ⟨_, g1.cons _, .str _ _ g2⟩
+    rw [if_neg h9] at h
+    by_cases h10 : isDigit c = true
+    · rw [if_pos h10] at h; have hc := h10
+      simp only [map_ok_some] at h
+      obtain ⟨used, g1, g2, g3, g4⟩ := number_inv h
+      exact ⟨_, g1.cons _, .word _ _ (by simp) (Or.inr g4) (fun _ => NoSpecial.cons (isDigit_ns hc) g2) g3⟩
+    rw [if_neg h10] at h
+    by_cases h11 : c = '|'
+    · rw [if_pos h11] at h; subst h11
+      simp only [map_ok_some] at h
+      obtain ⟨body, g1, g2, rfl⟩ := quotedIdentifier_inv h
+      simp only [List.reverse_nil, List.nil_append]
+      exact ⟨_, g1.cons _, .bar _ g2⟩
+    rw [if_neg h11] at h
+    · simp only [map_ok_some] at h
+      obtain ⟨used, g1, g2, g3, g4, rfl⟩ := normalIdentifier_inv h
+      refine ⟨_, g1.cons _, .word _ _ (by simp) (Or.inr rfl) (fun hs => NoSpecial.cons ?_ g2) g3⟩
+      simp only [startsTok, isWs, Bool.and_eq_true, Bool.not_eq_true', Bool.or_eq_false_iff,
+        decide_eq_false_iff_not] at hs
+      simp only [specials, List.mem_cons, List.not_mem_nil, or_false, not_or]
+      exact ⟨h1, h2, hs.2, h9, h11, h5, hs.1.1.1.1, hs.1.1.1.2, hs.1.1.2, hs.1.2⟩
+
+theorem TokShape.ne_nil {P rest t used} (h : TokShape P rest t used) : used ≠ [] := by
+  cases h <;> simp_all
+
+theorem token_progress {cs p t rest p'} (h : token cs p = .ok (some (t, rest, p'))) :
+    rest.length < cs.length := by
+  obtain ⟨used, g1, g2⟩ := token_inv h
+  have := g1.length_le
+  have := List.length_pos_iff.mpr g2.ne_nil
+  omega
+
+/-- `next` = atmosphere, then a token -/
+theorem next_inv {cs p t rest p'} (h : next cs p = .ok (some (t, rest, p'))) :
+    ∃ a used, cs = a ++ (used ++ rest) ∧ p' = advs used (advs a p) ∧ isAtmos false a = true ∧
+      TokShape True rest t used := by
+  unfold next at h
+  obtain ⟨a, h1, h2, h3, h4, h5⟩ := skipAtmosphere_inv false cs p
+  generalize skipAtmosphere false cs p = r at *
+  obtain ⟨cs1, p1⟩ := r
+  simp only at h h1 h2 h3 h5
+  obtain ⟨used, g1, g2⟩ := token_inv h
+  have hne : cs1 ≠ [] := by
+    intro e; subst e; simp [token] at h
+  refine ⟨a, used, ?_, ?_, h5 hne, ?_⟩
+  · rw [← g1.split]; exact h1
+  · rw [g1.pos, h2]
+  · simp only [h3] at g2; exact g2
+
+theorem next_progress {cs p t rest p'} (h : next cs p = .ok (some (t, rest, p'))) :
+    rest.length < cs.length := by
+  obtain ⟨a, used, h1, -, -, h4⟩ := next_inv h
+  have := List.length_pos_iff.mpr h4.ne_nil
+  subst h1
+  simp; omega
+
+theorem allAux_fuel (k fuel : Nat) (cs : List Char) (p : Pos) (acc : List LToken)
+    (h : cs.length < fuel) : allAux (fuel + k) cs p acc = allAux fuel cs p acc := by
+  induction fuel generalizing cs p acc with
+  | zero => omega
+  | succ fuel ih =>
+    rw [show fuel + 1 + k = (fuel + k) + 1 by omega]
+    simp only [allAux]
+    cases hn : next cs p with
+    | error e => rfl
+    | ok r =>
+      cases r with
+      | none => rfl
+      | some r =>
+        obtain ⟨t, rest, p'⟩ := r
+        have := next_progress hn
+        exact ih _ _ _ (by omega)
+
+theorem token_boundary {cs p t rest p'} (h : token cs p = .ok (some (t, rest, p'))) :
+    closedTok t = true ∨ cs.head? = some '|' ∨ startsDelim rest = true ∨
+      (sharpTok t = true ∧ startsSharp rest = true) := by
+  obtain ⟨used, g1, g2⟩ := token_inv h
+  cases g2 with
+  | word _ _ _ _ _ hd => exact Or.inr (Or.inr (Or.inl hd))
+  | bool b x _ hd =>
+    rcases hd with hd | hd
+    · exact Or.inr (Or.inr (Or.inl hd))
+    · exact Or.inr (Or.inr (Or.inr ⟨rfl, hd⟩))
+  | char _ _ _ hs _ hd =>
+    rcases hd with hd | hd
+    · exact Or.inr (Or.inr (Or.inl hd))
+    · exact Or.inr (Or.inr (Or.inr ⟨hs, hd⟩))
+  | bar body _ => right; left; simp [g1.split]
+  | _ => exact Or.inl rfl
+
+theorem skipAtmosphere_trail (b : Bool) (a : List Char) (p : Pos) (h : isTrail b a = true) :
+    ∃ p', skipAtmosphere b a p = ([], p') := by
+  induction a generalizing b p with
+  | nil => exact ⟨p, by simp [skipAtmosphere]⟩
+  | cons c a ih =>
+    cases b
+    · simp only [isTrail] at h
+      simp only [skipAtmosphere]
+      split
+      · rename_i hw; simp only [hw, if_true] at h; exact ih _ _ h
+      · rename_i hw
+        simp only [hw] at h
+        split
+        · rename_i hc; simp only [hc, if_true] at h; exact ih _ _ h
+        · rename_i hc; simp [hc] at h
+    · simp only [isTrail] at h
+      rw [skipAtmosphere]
+      split
+      · rename_i hn
+        simp only [hn, if_true] at h
+        have hw : isWs c = true := by
+          simp only [Bool.or_eq_true, decide_eq_true_eq] at hn
+          rcases hn with rfl | rfl <;> decide
+        rw [skipAtmosphere]; simp only [hw, if_true]
+        exact ih _ _ h
+      · rename_i hn
+        simp only [hn] at h
+        exact ih _ _ h
+
 end Ruschm.Text
